@@ -94,8 +94,9 @@ from ._warnings import ToleratedServerIssueWarning, MissingKeybindingsWarning
 __all__ = []
 
 
-CIMXML_HEX_PATTERN = re.compile(r'^(\+|\-)?0[xX][0-9a-fA-F]+$')
-NUMERIC_CIMTYPE_PATTERN = re.compile(r'^([su]int(8|16|32|64)|real(32|64))$')
+# Note: '\Z' and not '$', because '$' also matches before a trailing newline
+CIMXML_HEX_PATTERN = re.compile(r'^(\+|\-)?0[xX][0-9a-fA-F]+\Z')
+NUMERIC_CIMTYPE_PATTERN = re.compile(r'^([su]int(8|16|32|64)|real(32|64))\Z')
 
 
 def name(tup_tree):
